@@ -6,7 +6,7 @@ MQ = list(PROPERTIES["C04"]["harnesses"])   # the many-sender message queue proo
 prop("C06", "model_checking",
      "Lemmas of DESIGN 5.C06, each a machine-checked contract on the real fibre.c compiled against a shadow <stdatomic.h> that lets interrupt handlers post fibre_run_atomic requests before every atomic "
      "operation of the verified code (and overwrites a slot's payload the moment the main context releases it): L1 fibre_run_atomic (accepted => queued exactly once, in order, nothing else touched; refused => "
-     "taint and nothing queued), L2 handle_atomic_runq (every request pending at entry handled exactly once in arrival order from its own payload, later arrivals handled or still pending), L3 fibre_scheduler_next "
+     "taint and nothing queued), L2 handle_atomic_runq (every request pending at entry handled exactly once in arrival order from its own payload, later arrivals handled or still pending - proved as a loop-cut step: one iteration from an arbitrary invariant state with up to 8 requests pending and any number arriving at every interruption point, so neither arrivals nor iterations are bounded; the thorough tier adds a bounded multi-iteration run of the whole loop as a cross-check), L3 fibre_scheduler_next "
      "(a request pending at the fast-path test forces the slow path; queues never corrupted; C03's return clause), L4 fibre_eventq_send (event published before the wake-up is posted, payload intact, received once). "
      "The queue-level facts (no buffer handed out twice, claim order, exactly-once) for ANY number of senders including free-running threads are the C04 proof, re-run here. "
      "The end-to-end sentence 'dispatched by a subsequent fibre_scheduler_next without further stimulus' is the written composition L1 -> L2/L3 -> C01 (FIFO) -> C03 (no oversleep) of DESIGN 5.C06.",
